@@ -166,6 +166,8 @@ def configs(tier):
     for size, seg, closure in ((5, 2, False), (4, 2, True), (1, 2, False), (0, 2, False)) if tier == "quick" else \
             ((5, 2, False), (4, 2, True), (6, 3, False), (7, 3, True), (1, 2, False), (0, 2, False), (3, 1, False)):
         out.append(dict(mode="ack", size=size, seg=seg, closure=closure, naks=2))
+    # a put request carrying every kind of Metadata option (filestore request, messages to user): the re-sent Metadata must equal the original
+    out.append(dict(mode="ack", size=3, seg=2, closure=False, naks=3, msgs="all", fsreq=True))
     return out
 
 
